@@ -109,6 +109,7 @@ func run(c *hlib.Ctx) {
 	runBicg(c, n)
 	runLsq(c, n)
 	runCubicInflection(c, n)
+	runCached(c, n) // added last: earlier PRNG streams unchanged
 }
 
 func emit(c *hlib.Ctx, m mode, kind string, args string, impl func() string) {
